@@ -45,6 +45,23 @@ HARNESSES.append(
          unwind=7, unwindset=EA_UW(2),
          backends=["default", "kissat"],
          bound="xattr block of 72 (thorough: 96) bytes, every byte symbolic under the well-formedness predicate; up to 2 (3) entries"))
+import importlib.util as _ilu, os as _os
+def _extwrite():
+    """rewrite_extent_replay() -- the writer half of the extent-tree rebuild (source harness/C01/extwrite.c): the tree written back
+    maps every logical block exactly as the list built by load_extents does (harness extlist decides the reader half)"""
+    p = _os.path.join(_os.path.dirname(_os.path.abspath(__file__)), "..", "C01", "spec.py")
+    sp = _ilu.spec_from_file_location("spec_C01_for_C05", p)
+    m = _ilu.module_from_spec(sp)
+    sp.loader.exec_module(m)
+    for h in m.HARNESSES:
+        if h["name"] == "extwrite":
+            d = dict(h)
+            d["src"] = "../C01/extwrite.c"
+            d["configs"] = [c for c in h["configs"] if c.get("_tier") != "thorough"]
+            return [d]
+    raise RuntimeError("C01 extwrite harness missing")
+HARNESSES += _extwrite()
+
 MANIFEST = {
     "text": "Kernel-level slice (partial). Bounded-exhaustive on one fully symbolic directory block: fill_dir_block indexes exactly the live entries "
             "(minus . and .. in non-compress mode) with the right inode, size sum and parent; fill_dir_block -> copy_dir_entries preserves the multiset "
